@@ -80,7 +80,7 @@ func symPlan(g *vlib.G, nq int) (small []int, profs []prof, stock []int) {
 }
 
 func genDsyev(g *vlib.G) {
-	small, profs, stock := symPlan(g, 3)
+	small, profs, stock := symPlan(g, 5)
 	type cfg struct {
 		n    int
 		p    prof
@@ -253,7 +253,7 @@ func tridiag(d, e []float64) M {
 }
 
 func genDsytrd(g *vlib.G) {
-	small, profs, stock := symPlan(g, 3)
+	small, profs, stock := symPlan(g, 5)
 	type cfg struct {
 		n    int
 		p    prof
@@ -503,6 +503,10 @@ func runDstScaled(t *vlib.T, n, sc, extra, pat int) {
 			return
 		}
 		if !ok {
+			if name == "Dsterf" && extra > 0 && (sc < -405 || sc > 510) {
+				finding(t, "dsterf-dlascl-lda", "Dsterf with len(d) > n on scale 2^%d does not converge (the rescaling touched d[l], d[l+n], ... instead of d[l:l+m])", sc)
+				return
+			}
 			t.Failf("%s did not converge", name)
 			return
 		}
